@@ -125,6 +125,8 @@ def h_dict_to_class(S, B):
     if exmember is not None:
         data["exception"] = exmember
     via = S.choice("via", B["VIA"])
+    if via == "recreate_classes-deeply-nested" and (kind == "bytes" or bundle != B["BUNDLES"][0]):
+        S.assume(False, "the deeply nested route is explored with text tags and the first member bundle only")
     result = None
     exc = None
     log.active = True
@@ -137,6 +139,14 @@ def h_dict_to_class(S, B):
             result = serializers.serializers["json"].recreate_classes([1, data])[1]
         elif via == "recreate_classes-in-dict":
             result = serializers.serializers["marshal"].recreate_classes({"k": (data,)})["k"][0]
+        elif via == "recreate_classes-deeply-nested":
+            # the statement holds at any nesting depth: the tagged dict sits inside 120 containers
+            nested = data
+            for _ in range(120):
+                nested = [nested]
+            result = serializers.serializers["json"].recreate_classes(nested)
+            for _ in range(120):
+                result = result[0]
         elif via == "serpent-dict_to_class":
             result = serializers.SerpentSerializer.dict_to_class(data)
         else:
@@ -162,10 +172,29 @@ def h_dict_to_class(S, B):
     if exc is not None:
         S.cover("rejected:" + type(exc).__name__)
         S.observe("rejected", type(exc).__name__)
+        # decoding is stateless: what was refused once is refused again (no refused tag may leave anything behind
+        # that makes a later message with the same tag acceptable)
+        if via == "dict_to_class":
+            again = None
+            log.active = True
+            if S.symbolic:
+                S.interp.call_hook = log.hook
+            try:
+                again = ("accepted", type(serializers.SerializerBase.dict_to_class(dict(data))))
+            except Exception as x:
+                again = ("rejected", type(x))
+            log.active = False
+            if S.symbolic:
+                S.interp.call_hook = None
+            S.check("a-refused-tag-is-refused-again", again[0] == "rejected")
+            S.check("no-forbidden-call-while-decoding", log.bad == [])
         if text_tag is not None:
             S.check("double-underscore-tags-get-SecurityError", Implies("__" in text_tag, isinstance(exc, errors.SecurityError)))
         return
     # accepted: plain data (tag missing on the recreate paths) or an instance of the closed set, produced from one of its own tags
+    if via == "recreate_classes-deeply-nested" and type(result) is dict and kind != "missing":
+        S.check("a-class-tagged-dict-is-never-left-undecoded-at-any-depth", False)
+        return
     if kind == "missing" and via.startswith("recreate"):
         S.cover("accepted:plain-data")
         S.check("untagged-dict-stays-data", type(result) is dict)
@@ -212,7 +241,7 @@ ASCII = [(0x20, 0x7E)]
 
 SPECS = [
     Spec("dict_to_class", h_dict_to_class,
-         {"quick": {"L": 34, "LB": 14, "BUNDLES": [0, 1, 2], "VIA": ["dict_to_class", "recreate_classes-in-dict"]},
+         {"quick": {"L": 34, "LB": 14, "BUNDLES": [0, 1, 2], "VIA": ["dict_to_class", "recreate_classes-in-dict", "recreate_classes-deeply-nested"]},
           "thorough": {"L": 48, "LB": 20, "BUNDLES": [0, 1, 2, 3, 4, 5],
                        "VIA": ["dict_to_class", "recreate_classes-toplevel", "recreate_classes-in-list", "recreate_classes-in-dict",
                                "serpent-dict_to_class", "msgpack-object_hook"]}},
